@@ -404,6 +404,18 @@ func (g *gctx) makeInput(class string, thorough bool) *Input {
 	default:
 		panic("unknown class " + class)
 	}
+	// an entry with an invalid level (for an unrelated rule) next to overrides that matter: falco skips
+	// that entry only, the other overrides still apply
+	for i := range in.Cfgs {
+		if strings.HasPrefix(in.Cfgs[i].Class, "override-") && in.Cfgs[i].Class != "override-invalid" && len(in.Cfgs[i].Rules) > 0 && r.Intn(3) == 0 {
+			bad := [2]string{unrelatedRules[r.Intn(len(unrelatedRules))], []string{"FATAL", "off", "2"}[r.Intn(3)]}
+			at := r.Intn(len(in.Cfgs[i].Rules) + 1)
+			rules := append([][2]string{}, in.Cfgs[i].Rules[:at]...)
+			rules = append(rules, bad)
+			in.Cfgs[i].Rules = append(rules, in.Cfgs[i].Rules[at:]...)
+			in.Cfgs[i].Label += "+invalid-entry"
+		}
+	}
 	return in
 }
 
